@@ -76,7 +76,6 @@ AReplay(cfg, cmds, k, s) ==
        /\ (r.s.st = "Dead" <=> cm.eof = 1)
        /\ (cm.c = "begin" /\ r.s.st = "Authed" =>
               /\ cm.hello = 1
-              /\ cm.ident = (CASE r.s.authz = "uid" -> cfg.sockUid [] r.s.authz = "server" -> cfg.serverUid [] OTHER -> -1)
-              /\ cm.fdok = (IF r.s.fd THEN 1 ELSE 0))
+              /\ cm.ident = (CASE r.s.authz = "uid" -> cfg.sockUid [] r.s.authz = "server" -> cfg.serverUid [] OTHER -> -1))
        /\ AReplay(cfg, cmds, k + 1, r.s)
 =============================================================================
